@@ -9,6 +9,7 @@
    [F V vzero f args q] = f applied to the operands' values at q = numpy's f(densified operands)[q]. *)
 From Coq Require Import ZArith List Bool Sorting.Sorted.
 From Verif Require Import Py Shape COO COOP NpElemwise S_umath Elemwise ElemwiseP ElemwiseBcastP ElemwiseGenP.
+From Verif Require Import Alias Convert ConvertP ElemwiseApi ElemwiseApiP.
 Import ListNotations.
 Open Scope Z_scope.
 
@@ -47,14 +48,15 @@ Print Assumptions elemwise2_den.
    NumPy's value there, unless that value equals the result's fill value; and holds each once.  Hence
    the concatenation of the pieces has no duplicates (the promise has_duplicates=False). *)
 Theorem mask_partition (V : Type) (veqb : V -> V -> bool) (vzero : V) (f : list V -> V)
+        (srt : list Z -> list nat) (srt_ok : is_argsort srt)
         (args : list (operand V)) (sh : shape) (fill : V) :
   Forall (op_ok V) args -> np_broadcast_rel (map (op_shape V) args) sh -> shape_ok sh ->
   forall m, In m (masks V args) -> existsb is_true m = true ->
-  exists o, func_coords_data V veqb vzero f args sh fill m = Ok o /\
+  exists o, func_coords_data V veqb vzero f srt args sh fill m = Ok o /\
     NoDup (map fst (piece_of V o)) /\
     forall q v, In (q, v) (piece_of V o) <->
       (in_range sh q /\ m = mask_of V args q /\ v = F V vzero f args q /\ veqb v fill = false).
-Proof. exact (mask_partition_proof V veqb vzero f args sh fill). Qed.
+Proof. exact (mask_partition_proof V veqb vzero f srt srt_ok args sh fill). Qed.
 Print Assumptions mask_partition.
 
 (* (4) the general case: any number of operands, each a canonical COO array of any shape (0-d
@@ -67,24 +69,25 @@ Print Assumptions mask_partition.
      is exactly NumPy's dense result;
    - OutErr e: e = ValueError, and either the shapes are not broadcastable or func(fills, ndarrays) is not
      constant while the ndarrays do not have the full shape.  (dense_mix_rule) *)
-Theorem elemwise_den (V : Type) (veqb : V -> V -> bool) (vzero : V) (f : list V -> V) :
-  (forall x y, veqb x y = true <-> x = y) ->
+Theorem elemwise_den (V : Type) (veqb : V -> V -> bool) (vzero : V) (f : list V -> V)
+        (srt : list Z -> list nat) :
+  is_argsort srt -> (forall x y, veqb x y = true <-> x = y) ->
   forall args : list (operand V),
   Forall (op_ok V) args -> existsb (is_sparse V) args = true ->
-  elemwise_post V veqb vzero f args (elemwise V veqb vzero f args).
-Proof. exact (elemwise_den_proof V veqb vzero f). Qed.
+  elemwise_post V veqb vzero f args (elemwise V veqb vzero f srt args).
+Proof. intros Hs. exact (elemwise_den_proof V veqb vzero srt Hs f). Qed.
 Print Assumptions elemwise_den.
 
 (* (5) programs: for every expression tree over canonical sparse arrays and scalars (unary, binary,
    ternary nodes, each with its own function) that NumPy can evaluate on the densified leaves
    ([dense_eval e sh d]: shape sh, value function d), the step-by-step sparse evaluation succeeds and
    yields a value of shape sh, canonical, whose dense meaning is d everywhere. *)
-Theorem programs_den (V : Type) (veqb : V -> V -> bool) (vzero : V) :
-  (forall x y, veqb x y = true <-> x = y) ->
+Theorem programs_den (V : Type) (veqb : V -> V -> bool) (vzero : V) (srt : list Z -> list nat) :
+  is_argsort srt -> (forall x y, veqb x y = true <-> x = y) ->
   forall e : expr V, wf_expr V e -> forall sh d, dense_eval V e sh d ->
-  exists a, eval V veqb vzero e = Some a /\ op_shape V a = sh /\ val_ok V a /\
+  exists a, eval V veqb vzero srt e = Some a /\ op_shape V a = sh /\ val_ok V a /\
             forall q, in_range sh q -> operand_at V vzero a q = d q.
-Proof. exact (programs_proof V veqb vzero). Qed.
+Proof. intros Hs. exact (programs_proof V veqb vzero srt Hs). Qed.
 Print Assumptions programs_den.
 
 (* (6) objects: SparseArray.astype (early-return condition regenerated from the source) returns the
@@ -101,3 +104,64 @@ Theorem astype_copy_fresh (self fresh : nat) (same_dtype : bool) :
                    astype_object self fresh same_dtype true <> self.
 Proof. exact (astype_copy_fresh_proof self fresh same_dtype). Qed.
 Print Assumptions astype_copy_fresh.
+
+(* (7) np.argsort inside _match_coo is called without kind= (unstable): the order of equal keys is
+   unspecified.  [is_argsort srt]: srt returns, for every key list, SOME permutation of the positions that
+   sorts the keys.  Every theorem above is stated for an arbitrary such srt; and the result does not depend
+   on the choice at all (the stable [argsort] used by the correspondence is one instance). *)
+Theorem argsort_irrelevant (V : Type) (veqb : V -> V -> bool) (vzero : V) (f : list V -> V)
+        (s1 s2 : list Z -> list nat) (args : list (operand V)) :
+  (forall x y, veqb x y = true <-> x = y) ->
+  is_argsort s1 -> is_argsort s2 -> Forall (op_ok V) args ->
+  elemwise V veqb vzero f s1 args = elemwise V veqb vzero f s2 args.
+Proof. intros He. exact (elemwise_sort_irrelevant_proof V veqb vzero f He s1 s2 args). Qed.
+Print Assumptions argsort_irrelevant.
+
+Theorem stable_argsort_is_argsort : is_argsort argsort.
+Proof. exact argsort_is_argsort. Qed.
+Print Assumptions stable_argsort_is_argsort.
+
+(* (8) the written-out same-shape binary model of theorem (3) IS the general model on [a; b]
+   (operands with at least one axis; 0-d sparse operands are densified first by the general code). *)
+Theorem elemwise2_is_elemwise (V : Type) (veqb : V -> V -> bool) (vzero : V) (f : list V -> V)
+        (srt : list Z -> list nat) (a b : coo V) :
+  (forall x y, veqb x y = true <-> x = y) ->
+  is_argsort srt -> canonical V a -> canonical V b -> shape_ok (c_shape a) ->
+  c_shape a = c_shape b -> c_shape a <> [] ->
+  elemwise V veqb vzero f srt [OSp a; OSp b] = OutSparse (elemwise2 V veqb vzero f a b).
+Proof. intros He. exact (elemwise2_is_elemwise_proof V veqb vzero f He srt a b). Qed.
+Print Assumptions elemwise2_is_elemwise.
+
+(* (9) operands in any sparse format and the final asformat(out_type): every sparse operand is ANY
+   representation (COO, GCXS with any valid compressed axes, DOK) reachable by conversions from a
+   canonical COO array (C05's chain invariant [inv]; 0-d DOK excluded = finding zero_dim_from_iter);
+   the output format is chosen by the chain regenerated from _Elemwise.__init__ (Gen/S_umath.v) and the
+   result converted by C05's [convert].  Under the two domain clauses of that conversion ([api_hop_ok]:
+   asformat accepts the hop for the result's shape; no 0-d result through DOK) the returned array, in its
+   final format, is well-formed, has the broadcast shape, and its dense meaning is f of the operands' dense
+   meanings at every index; dense results are NumPy's; errors are ValueError from the core or no sparse
+   operand. *)
+Theorem elemwise_api_den (V : Type) (veqb : V -> V -> bool) (add : V -> V -> V) (vzero : V) (f : list V -> V)
+        (srt : list Z -> list nat) :
+  (forall x y, veqb x y = true <-> x = y) -> is_argsort srt ->
+  forall args : list (api_arg V),
+  Forall (arg_ok V veqb) args -> api_hop_ok V veqb add vzero f srt args ->
+  api_post V veqb add vzero f srt args (elemwise_api V veqb add vzero f srt args).
+Proof. exact (elemwise_api_den_proof V veqb add vzero f srt). Qed.
+Print Assumptions elemwise_api_den.
+
+(* (10) programs with in-place operators / out= / astype over a store of objects.  [np_exec]: NumPy's
+   execution of the statements on dense arrays (a result is a new array; an in-place form overwrites the
+   target's buffer; astype returns its operand iff nothing changes and copy=False).  [exec]: the library's
+   execution (results through the element-wise core; in-place forms by _make_shallow_copy_of, which
+   re-binds exactly the target object — C11's out_swap_only_target; astype's object by the condition
+   regenerated from the source).  If the two stores are related object by object (same shape, same
+   value everywhere) before, the library's execution succeeds and they are related after: every variable —
+   including earlier operands that are re-used later — has NumPy's value. *)
+Theorem store_programs_den (V : Type) (veqb : V -> V -> bool) (vzero : V) (srt : list Z -> list nat) :
+  (forall x y, veqb x y = true <-> x = y) -> is_argsort srt ->
+  forall (st : state V) (dst : dstate V) (p : list (stmt V)) (dst' : dstate V),
+  R V vzero st dst -> np_exec V dst p dst' ->
+  exists st', exec V veqb vzero srt st p = Some st' /\ R V vzero st' dst'.
+Proof. exact (store_programs_proof V veqb vzero srt). Qed.
+Print Assumptions store_programs_den.
